@@ -523,6 +523,9 @@ def templates(tier):
     # 13 over-determined systems: a position constraint next to two grid coordinates (consistent only for some values)
     add("overdetermined-pos-vs-coords", [obj("A", gshape=(2, None, None)), obj("B", gshape=(2, None, None))],
         [c_pos("A", "B", (0,), (0.0,), (0.0,), margins=(R("m", -1.0, 1.0),)), c_grid("A", (0,), ("-",), (I("ga", 0, N - 2),)), c_grid("B", (0,), ("-",), (I("gb", 0, N - 2),))])
+    add("overdetermined-pos-vs-2coords", [obj("A", gshape=(2, None, None)), obj("B")],
+        [c_pos("A", "B", (0,), (0.0,), (0.0,), margins=(R("m", -1.0, 1.0),)), c_grid("A", (0,), ("-",), (I("ga", 0, 4),)), c_grid("B", (0,), ("-",), (I("gb", 0, 2),)),
+         c_grid("B", (0,), ("+",), (I("gb1", 3, 5),))])
     add("overdetermined-pos-vs-coords-pinned", [obj("A", gshape=(2, None, None)), obj("B", gshape=(2, None, None))],
         [c_pos("A", "B", (0,), (0.0,), (0.0,), margins=(R("m", -1.0, 1.0),)), c_grid("A", (0,), ("-",), (I("ga", 0, 2),)), c_grid("A", (0,), ("+",), (I("ga1", 2, 4),)),
          c_grid("B", (0,), ("-",), (I("gb", 1, 3),)), c_grid("B", (0,), ("+",), (I("gb1", 3, 5),))], pinned=["A", "B"])
@@ -546,6 +549,11 @@ def templates(tier):
     add("overdetermined-realpos", [obj("A", rpos=(R("x", -2.0, 2.0), None, None))], [c_grid("A", (0,), ("-",), (I("g0", 0, N),)), c_grid("A", (0,), ("+",), (I("g1", 0, N),))])
     # 18 position relative to an object that is itself only resolved by the extension step
     add("pos-to-extended", [obj("A"), obj("B", gshape=(2, None, None))], [c_pos("B", "A", (0,), (-1.0,), (-1.0,), margins=(R("m", -1.0, 4.0),))])
+    # 18b extension / position relative to an object that is only resolved by the extension step, next to other constraints
+    add("ext-to-extended", [obj("A"), obj("B")],
+        [c_grid("B", (0,), ("-",), (I("g", 0, 2),)), c_ext("B", "A", 0, "+", other_position=R("q", -1.0, 1.0), offset=R("off", -0.5, 0.5))])
+    add("pos-to-extended2", [obj("A"), obj("B", gshape=(2, None, None)), obj("C", gshape=(1, None, None))],
+        [c_pos("C", "V", (0,), (-1.0,), (-1.0,), margins=(R("m1", -0.5, 3.0),)), c_pos("B", "A", (0,), (-1.0,), (-1.0,), margins=(R("m", -1.0, 4.0),))])
     # 19 longer chain (thorough)
     add("chain3", [obj("A", gshape=(2, None, None)), obj("B", gshape=(1, None, None)), obj("C", gshape=(2, None, None))],
         [c_pos("A", "V", (0,), (-1.0,), (-1.0,), margins=(R("m1", -0.5, 2.0),)), c_pos("B", "A", (0,), (-1.0,), (1.0,), margins=(R("m2", -1.0, 1.0),)),
